@@ -540,19 +540,24 @@ def _graph_wrappers(cx: _Cx) -> dict[str, tuple[ast.FunctionDef, str]]:
 
     H, mod = cx.H, cx.mod
     out: dict[str, tuple[ast.FunctionDef, str]] = {}
+    flow = H.PackageFlow(cx.repo, mod)
+    methods = [f for ms in (cx.base, cx.upd) for f in ms.values()]
     for scope in (cx.roles.scope_base, cx.roles.scope_upd):
         for nm, f in scope.own.items():
             if not H.is_private(nm):
                 continue
             ps = H.params_of(f)[1:]
-            for _node, text, args in H.templates(mod, f):
-                sp = H.placeholders(text)
-                for k, (a, _b) in enumerate(sp):
-                    if not re.search(r"\bGRAPH\s*$", text[:a], re.I) or args is None or k >= len(args):
-                        continue
-                    for x in H.backward_slice(args[k], f, mod):
-                        if isinstance(x, ast.Name) and x.id in ps and not isinstance(mod.parent.get(id(x)), ast.Attribute):
-                            out[nm] = (f, x.id)
+            # the text may be built by the method itself or by a function of the package (outside the classes) that the method
+            # hands the parameter to: the value written after GRAPH is followed back to the parameters of the method
+            for fr in flow.reached(H.Frame(mod, f), skip=methods):
+                for _node, text, args in H.templates(fr.mod, fr.fn):
+                    sp = H.placeholders(text)
+                    for k, (a, _b) in enumerate(sp):
+                        if not re.search(r"\bGRAPH\s*$", text[:a], re.I) or args is None or k >= len(args):
+                            continue
+                        for x, xfr in flow.root_names(args[k], fr):
+                            if x.id in ps and not isinstance(xfr.mod.parent.get(id(x)), ast.Attribute):
+                                out[nm] = (f, x.id)
     return out
 
 
@@ -1370,52 +1375,64 @@ def _rule_v(cx: _Cx) -> None:
     # ------------------------------------------------------------------ (v) WHERE { of the short form DELETE WHERE is a quad pattern
     rep.rule("C20.v-where-injection-after-delete-where-expansion",
              "a regular-expression substitution of the SPARQL store whose pattern finds `WHERE {` (it puts text - the VALUES block of initBindings - "
-             "at the start of every WHERE group) either cannot match in `DELETE WHERE {`, or is applied to text that went through a method of the "
-             "store using a regular expression that recognises the head `DELETE WHERE` (and not a plain `WHERE`): the braces of the short form "
+             "at the start of every WHERE group) - in a method of the store or in a function of the package the method hands the text to - either "
+             "cannot match in `DELETE WHERE {`, or is applied to text that went through a function of the package (a method of the store, a "
+             "function it passes the text and its patterns to) that applies a regular expression recognising the head `DELETE WHERE` (and not a "
+             "plain `WHERE`), the expression being whatever its receiver evaluates to in the calling context: the braces of the short form "
              "enclose a quad pattern in which VALUES is a syntax error, so update('DELETE WHERE {?s ?p ?o}', initBindings={'s': x}) deleted nothing", floor=1)
     short_form, long_form = "DELETE WHERE {", "DELETE { ?s ?p ?o } WHERE {"
+    # The store's methods may keep only the step that needs `self` and hand the text, and the compiled expressions they read
+    # from self, to functions of the package (of this module or of another one): a regular expression is what the receiver
+    # of .search/.sub/.. evaluates to IN THE CALLING CONTEXT (a constant of the module or class, a parameter -> the argument
+    # passed, a name imported from a module of the package), a callee is whatever function of the package the call can
+    # only run, and the text a substitution works on is followed back through parameters to the caller (H.PackageFlow).
+    flow = H.PackageFlow(repo, mod)
+    methods = [f for _cls, ms in both for f in ms.values()]
 
-    def recognises_short_form(fn: ast.AST, seen: set[int]) -> bool:
-        if id(fn) in seen:
+    def recognises_short_form(fr, seen: set) -> bool:
+        """a regular expression that finds the head `DELETE WHERE` (and not a plain `WHERE`) is applied in the function of the
+        frame, or in a function of the package it calls"""
+        key = (id(fr.fn), id(fr.call))
+        if key in seen:
             return False
-        seen.add(id(fn))
-        for x in own_nodes(fn, include_nested=True):
-            if isinstance(x, ast.Call) and isinstance(x.func, ast.Attribute) and x.func.attr in ("search", "match", "fullmatch", "finditer", "findall", "sub", "subn", "split"):
-                p = H.pattern_of_receiver(mod, x.func.value)
-                if p and H.sample_search(p[0], p[1], "DELETE WHERE ") and not H.sample_search(p[0], p[1], "} WHERE ") and not H.sample_search(p[0], p[1], "WHERE "):
-                    return True
-            if isinstance(x, ast.Call) and isinstance(x.func, ast.Attribute) and isinstance(x.func.value, ast.Name) and x.func.value.id == "self":
-                for ms in (upd, base):
-                    if x.func.attr in ms and recognises_short_form(ms[x.func.attr], seen):
-                        return True
+        seen.add(key)
+        for x in own_nodes(fr.fn, include_nested=True):
+            if not isinstance(x, ast.Call):
+                continue
+            u = flow.regex_use(x, fr)
+            if u is not None and H.sample_search(u[0], u[1], "DELETE WHERE ") and not H.sample_search(u[0], u[1], "} WHERE ") and not H.sample_search(u[0], u[1], "WHERE "):
+                return True
+            ch = flow.enter(x, fr)
+            if ch is not None and recognises_short_form(ch, seen):
+                return True
         return False
 
     for cls, ms in both:
         for mname, f in ms.items():
-            for n in own_nodes(f, include_nested=True):
-                if not (isinstance(n, ast.Call) and isinstance(n.func, ast.Attribute) and n.func.attr in ("sub", "subn")):
-                    continue
-                p = H.pattern_of_receiver(mod, n.func.value)
-                subject = n.args[1] if len(n.args) > 1 else next((k.value for k in n.keywords if k.arg == "string"), None)
-                if p is None and isinstance(n.func.value, ast.Name) and n.func.value.id == "re" and n.args:
-                    pv = H.StrEnv(mod, cls).value(n.args[0])
-                    p = (pv, 0) if isinstance(pv, str) else None
-                    subject = n.args[2] if len(n.args) > 2 else next((k.value for k in n.keywords if k.arg == "string"), None)
-                if p is None or not H.sample_search(p[0], p[1], long_form):
-                    continue
-                if not _re.search(r"WHERE", p[0], _re.I):
-                    continue  # finds the text by something else than the keyword (the block tokeniser)
-                ok = not H.sample_search(p[0], p[1], short_form)
-                if not ok and subject is not None:
-                    for x in H.backward_slice(subject, f, mod):
-                        if isinstance(x, ast.Call) and isinstance(x.func, ast.Attribute) and isinstance(x.func.value, ast.Name) and x.func.value.id == "self":
-                            callee = upd.get(x.func.attr) or base.get(x.func.attr)
-                            if callee is not None and recognises_short_form(callee, set()):
+            # the method, and the functions of the package OUTSIDE the two classes it hands work to (a method of the classes
+            # is looked at as itself, once)
+            for fr in flow.reached(H.Frame(mod, f), skip=methods):
+                for n in own_nodes(fr.fn, include_nested=True):
+                    if not (isinstance(n, ast.Call) and isinstance(n.func, ast.Attribute) and n.func.attr in ("sub", "subn")):
+                        continue
+                    u = flow.regex_use(n, fr)
+                    if u is None or not H.sample_search(u[0], u[1], long_form):
+                        continue
+                    if not _re.search(r"WHERE", u[0], _re.I):
+                        continue  # finds the text by something else than the keyword (the block tokeniser)
+                    subject = u[2]
+                    ok = not H.sample_search(u[0], u[1], short_form)
+                    if not ok and subject is not None:
+                        for x, xfr in flow.slice_calls(subject, fr):
+                            ch = flow.enter(x, xfr)
+                            if ch is not None and recognises_short_form(ch, set()):
                                 ok = True
-                rep.ob("C20.v-where-injection-after-delete-where-expansion", mod, "%s.%s" % (cls, mname), n, ok,
-                       "the text has the short form DELETE WHERE expanded before the injection" if ok else
-                       "text is injected after every `WHERE {`, the one of the short form `DELETE WHERE { quad pattern }` included: VALUES inside a quad "
-                       "pattern is a syntax error, the update is rejected and nothing is deleted", node=n)
+                                break
+                    where = "%s.%s" % (cls, mname) if fr.parent is None else "%s.%s -> %s" % (cls, mname, fr.chain().split(" -> ", 1)[1])
+                    rep.ob("C20.v-where-injection-after-delete-where-expansion", fr.mod, where, n, ok,
+                           "the text has the short form DELETE WHERE expanded before the injection" if ok else
+                           "text is injected after every `WHERE {`, the one of the short form `DELETE WHERE { quad pattern }` included: VALUES inside a quad "
+                           "pattern is a syntax error, the update is rejected and nothing is deleted", node=n)
 
 
 def _rule_w(cx: _Cx) -> None:
